@@ -504,6 +504,31 @@ def step (d : DState) (line : String) : IO DState := do
     | some s => out s!"size {s.onDiskSize}"
     | none => out "size none"
     return d
+  | ["dumpwstep"] =>
+    -- a dump during which the parked worker performs its next step: the dump shows the files as they
+    -- were, the step has its usual effect (the dump does not disturb the journal)
+    match d.sys.store with
+    | some s =>
+      let fs0 := d.sys.fs
+      let (sys', evs) := d.sys.workerStep .ok
+      printEvs evs
+      for id in s.closed.map Closed.id ++ [s.openId] do
+        match fs0.find id with
+        | none => out s!"rec {id} - err notFound"
+        | some f =>
+          let x := parseChunk f.data
+          let offs := offsetsFrom 0 (x.1.map (·.2))
+          let mut i := 0
+          for (r, sz) in x.1 do
+            out s!"rec {id} {i} {offs[i]!},{sz} {showRecord r}"
+            i := i + 1
+          match x.2.1 with
+          | .clean => pure ()
+          | .eof => out s!"rec {id} {i} err eof"
+          | .invalid => out s!"rec {id} {i} err invalid"
+      out s!"dumpw end wst {showPc sys'.worker.pc} q={sys'.worker.queue.length}"
+      return noteEvs { d with sys := sys' } evs
+    | none => out "dumpw none"; return d
   | ["dumpw"] =>
     -- `RaftLog::dump()`: every record of the closed chunks and the open chunk, read back from the files
     match d.sys.store with
